@@ -203,6 +203,8 @@ def read_value(ch, cns, clocal, problems, where):
             problems.append("%s: prov:%s=%r is not a dateTime" % (where, clocal, text))
             return ("str", text)
     if lang is not None:
+        if xt is not None and resolve_qname(ch, xt, problems, "xsi:type") != PROV + "InternationalizedString":
+            problems.append("%s: %s carries xml:lang together with the conflicting xsi:type %s" % (where, clocal, xt))
         return ("lit", text, PROV + "InternationalizedString", lang)
     if xt is not None:
         dturi = resolve_qname(ch, xt, problems, "xsi:type")
